@@ -9,29 +9,41 @@ package geom
 //@ prop C16,C20,C10
 
 //@ func Point.Type
+//@   notypeinv
 //@   ensures result == 1
 //@ func LineString.Type
+//@   notypeinv
 //@   ensures result == 2
 //@ func Polygon.Type
+//@   notypeinv
 //@   ensures result == 3
 //@ func MultiPoint.Type
+//@   notypeinv
 //@   ensures result == 4
 //@ func MultiLineString.Type
+//@   notypeinv
 //@   ensures result == 5
 //@ func MultiPolygon.Type
+//@   notypeinv
 //@   ensures result == 6
 //@ func GeometryCollection.Type
+//@   notypeinv
 //@   ensures result == 0
 
 //@ func Point.XY
+//@   notypeinv
 //@   ensures same(result0, p.coords.XY) && result1 == p.full
 //@ func Point.Coordinates
+//@   notypeinv
 //@   ensures same(result0, p.coords) && result1 == p.full
 //@ func Point.IsSimple
+//@   notypeinv
 //@   ensures result
 //@ func Point.Reverse
+//@   notypeinv
 //@   ensures same(result, p)
 //@ func Point.CoordinatesType
+//@   notypeinv
 //@   ensures result == p.coords.Type
 //@ func Point.Force2D
 //@   ensures result.coords.Type == 0 && result.full == p.full && (p.full ==> same(result.coords.XY, p.coords.XY))
@@ -39,15 +51,19 @@ package geom
 //@   ensures len(result.points) == 1 && result.ctype == p.coords.Type && result.points[0].full == p.full && (p.full ==> same(result.points[0].coords.XY, p.coords.XY))
 
 //@ func LineString.Coordinates
+//@   notypeinv
 //@   ensures same(result, s.seq)
 //@ func LineString.Force2D
 //@   ensures result.seq.ctype == 0 && NPts(result.seq) == NPts(s.seq)
 
 //@ func Polygon.NumInteriorRings
+//@   notypeinv
 //@   ensures result == max(0, len(p.rings) - 1)
 //@ func Polygon.NumRings
+//@   notypeinv
 //@   ensures result == len(p.rings)
 //@ func Polygon.IsSimple
+//@   notypeinv
 //@   ensures result
 //@ func Polygon.DumpRings
 //@   ensures len(result) == len(p.rings) && fresh(result) && (forall k :: 0 <= k && k < len(p.rings) ==> same(result[k], p.rings[k]))
@@ -55,8 +71,10 @@ package geom
 //@   ensures result.ctype == 0 && len(result.rings) == len(p.rings)
 
 //@ func MultiPoint.NumPoints
+//@   notypeinv
 //@   ensures result == len(m.points)
 //@ func MultiPoint.Reverse
+//@   notypeinv
 //@   ensures same(result, m)
 //@ func MultiPoint.Dump
 //@   ensures len(result) == len(m.points) && fresh(result) && (forall k :: 0 <= k && k < len(m.points) ==> same(result[k], m.points[k]))
@@ -64,12 +82,15 @@ package geom
 //@   ensures result.ctype == 0 && len(result.points) == len(m.points)
 
 //@ func MultiLineString.NumLineStrings
+//@   notypeinv
 //@   ensures result == len(m.lines)
 //@ func MultiLineString.Force2D
 //@   ensures result.ctype == 0 && len(result.lines) == len(m.lines)
 //@ func MultiPolygon.NumPolygons
+//@   notypeinv
 //@   ensures result == len(m.polys)
 //@ func MultiPolygon.Force2D
 //@   ensures result.ctype == 0 && len(result.polys) == len(m.polys)
 //@ func GeometryCollection.NumGeometries
+//@   notypeinv
 //@   ensures result == len(c.geoms)
